@@ -14,6 +14,7 @@ import (
 	stdos "os"
 	"sort"
 	"strings"
+	"syscall"
 
 	"github.com/nsqio/nsq/internal/verif/vos"
 	"github.com/nsqio/nsq/internal/verif/vrt"
@@ -23,9 +24,19 @@ import (
 
 type MetaSpec struct {
 	Steps []string `json:"steps"`
+	// Fault: the Nth (1-based) operation of this kind on nsqd.dat* fails (write: short write
+	// of half the data, then the error - a full disk; fsync / rename / open: an I/O error)
+	FaultKind string `json:"fault_kind,omitempty"`
+	FaultNth  int    `json:"fault_nth,omitempty"`
 }
 
-func (s MetaSpec) String() string { return strings.Join(s.Steps, ",") }
+func (s MetaSpec) String() string {
+	x := strings.Join(s.Steps, ",")
+	if s.FaultKind != "" {
+		x += fmt.Sprintf(" [%s #%d on nsqd.dat* fails]", s.FaultKind, s.FaultNth)
+	}
+	return x
+}
 
 type metaEvent struct {
 	Kind  string // effect | idle | snap
@@ -40,9 +51,10 @@ type metaEvent struct {
 }
 
 type MetaTrace struct {
-	Spec   MetaSpec
-	Events []metaEvent
-	Codes  []int
+	Spec     MetaSpec
+	Events   []metaEvent
+	Codes    []int
+	FaultHit bool
 }
 
 // LastMeta is the trace of the most recent RunMetaScript (judged outside the run).
@@ -99,6 +111,24 @@ func RunMetaScript(spec MetaSpec) vx.Out {
 		tr.Events = append(tr.Events, ev)
 	}
 	defer func() { vos.Hook = nil }()
+	if spec.FaultKind != "" {
+		seen := 0
+		vos.Fault = func(e vos.Effect) error {
+			// (armed once the daemon is up: start-up's own first persist is not the subject)
+			if w == nil || (!strings.Contains(e.Path, "nsqd.dat") && !strings.Contains(e.To, "nsqd.dat")) {
+				return nil
+			}
+			if strings.HasPrefix(e.Op, spec.FaultKind) {
+				seen++
+				if seen == spec.FaultNth {
+					tr.FaultHit = true
+					return syscall.ENOSPC
+				}
+			}
+			return nil
+		}
+		defer func() { vos.Fault = nil }()
+	}
 	var err error
 	w, err = NewWorld(FreshDir(), WOpts{MemQ: 10, NoLoops: true})
 	if err != nil {
@@ -295,7 +325,13 @@ func JudgeMeta(tr *MetaTrace) MetaJudgement {
 				hi = idleIdx[i]
 			}
 		}
-		atIdle := k > 0 && tr.Events[k-1].Kind == "idle"
+		// (with an injected I/O fault a persist may legitimately fail, so the file may lag
+		// behind the live state even at an idle point: then any state passed through so
+		// far is acceptable - the file must still be complete and loadable)
+		atIdle := k > 0 && tr.Events[k-1].Kind == "idle" && tr.Spec.FaultKind == ""
+		if tr.Spec.FaultKind != "" {
+			lo = 0
+		}
 		allowed := map[string]bool{}
 		if atIdle {
 			for _, s := range tr.Events[k-1].Snaps {
@@ -412,6 +448,13 @@ func JudgeMeta(tr *MetaTrace) MetaJudgement {
 				bad("C06 C08 ephemeral object in the persisted metadata", "kill %s: nsqd.dat=%q", at, v.content)
 			}
 			for obj, al := range ackAllowed {
+				// (not judged under an injected I/O fault: doPauseTopic/doPauseChannel ignore
+				// the error of their PersistMetadata call and answer 200 regardless - an
+				// observation recorded in the evidence notes; the property quantifies over
+				// kills, not over a failing disk)
+				if tr.Spec.FaultKind != "" {
+					break
+				}
 				if got, exists := pausedIn(st, obj); exists && !al[got] {
 					bad("C06 acknowledged pause/unpause not reflected after a kill", "kill %s (%s): every pause/unpause request for %s that can be the last one so far asked for paused=%v (and was answered 200 unless still in flight), restart loads {%s} (steps %v answered %v)", at, v.what, obj, !got, st, tr.Spec.Steps, tr.Codes)
 				}
